@@ -115,6 +115,16 @@ func (bs *BodySchema) ToHCLSchema() *hcl.BodySchema {
 		})
 	}
 
+	if bs.Extensions != nil {
+		// attributes provided by the extensions are part of the body too
+		if _, ok := bs.Attributes["count"]; !ok && bs.Extensions.Count {
+			attributes = append(attributes, hcl.AttributeSchema{Name: "count"})
+		}
+		if _, ok := bs.Attributes["for_each"]; !ok && bs.Extensions.ForEach {
+			attributes = append(attributes, hcl.AttributeSchema{Name: "for_each"})
+		}
+	}
+
 	blocks := make([]hcl.BlockHeaderSchema, 0)
 	for blockType, block := range bs.Blocks {
 		labelNames := make([]string, len(block.Labels))
